@@ -153,6 +153,9 @@ def _chart(draw, tier, opts):
         k0 = ids[0]
         samples[k0] = draw(st.sampled_from(["kick 1.wav", "スネア.ogg", "a.b.wav", "dir\\x.wav"]))
     note_ids = list(ids)  # ids[n_wav:] have no #WAV
+    if purpose == "read" and lnobj and draw(st.integers(0, 3)) == 0:
+        # the #LNOBJ marker id has a #WAV line of its own (a release sound): a hold still carries the sample of its head
+        samples[lnobj] = "release.wav"
 
     # ---- tempo ---------------------------------------------------------
     exbpms: Dict[str, float] = {}
